@@ -238,7 +238,7 @@ theorem selectPoll_own_gen (ss : Streams) (env : Nat → Env) (order : List Nat)
   case case2 ih =>
     intro hord hs
     exact ih (List.nodup_cons.mp hord).2 hs
-  case case3 ss sid' order s0 hl s' m hp =>
+  case case3 ss env sid' order s0 hl s' m hp =>
     intro hord hs
     by_cases he : sid = sid'
     · subst he
@@ -249,7 +249,7 @@ theorem selectPoll_own_gen (ss : Streams) (env : Nat → Env) (order : List Nat)
       simp only [lookup_setS_self, hl, Option.map_some]
     · left
       simp only [lookup_setS_ne _ _ _ _ he, hs]
-  case case4 ss sid' order s0 hl s' hp ih =>
+  case case4 ss env sid' order s0 hl s' hp ih =>
     intro hord hs
     have hnd := List.nodup_cons.mp hord
     by_cases he : sid = sid'
@@ -259,8 +259,11 @@ theorem selectPoll_own_gen (ss : Streams) (env : Nat → Env) (order : List Nat)
       rw [hp]
       refine ⟨rfl, ?_⟩
       rw [selectPoll_untouched _ _ _ _ hnd.1, lookup_remove_self]
-    · exact ih hnd.2 (by rw [lookup_remove_ne _ _ _ he]; exact hs)
-  case case5 ss sid' order s0 hl s' hp ih =>
+    · have hle : leftover env sid' (restOf s0 (env sid')) sid = env sid := by simp [leftover, he]
+      have := ih hnd.2 (by rw [lookup_remove_ne _ _ _ he]; exact hs)
+      rw [hle] at this
+      exact this
+  case case5 ss env sid' order s0 hl s' hp ih =>
     intro hord hs
     have hnd := List.nodup_cons.mp hord
     by_cases he : sid = sid'
@@ -271,7 +274,10 @@ theorem selectPoll_own_gen (ss : Streams) (env : Nat → Env) (order : List Nat)
       refine ⟨by simp, ?_⟩
       rw [selectPoll_untouched _ _ _ _ hnd.1, lookup_setS_self, hl]
       rfl
-    · exact ih hnd.2 (by rw [lookup_setS_ne _ _ _ _ he]; exact hs)
+    · have hle : leftover env sid' (restOf s0 (env sid')) sid = env sid := by simp [leftover, he]
+      have := ih hnd.2 (by rw [lookup_setS_ne _ _ _ _ he]; exact hs)
+      rw [hle] at this
+      exact this
 
 /-- C16 at the connection level: whatever the other substreams of the connection receive — errors,
 fatal messages, ends — a substream is either untouched, or advanced by its own answers only; it is
@@ -327,24 +333,28 @@ theorem selectPoll_item_gen (ss : Streams) (env : Nat → Env) (order : List Nat
     intro hord h
     obtain ⟨h1, h2⟩ := ih (List.nodup_cons.mp hord).2 h
     exact ⟨List.mem_cons_of_mem _ h1, h2⟩
-  case case3 ss sid' order s0 hl s' m' hp =>
+  case case3 ss env sid' order s0 hl s' m' hp =>
     intro _ h
     simp only [Option.some.injEq, Prod.mk.injEq] at h
     obtain ⟨rfl, rfl⟩ := h
     exact ⟨List.mem_cons_self, s0, hl, by rw [hp]⟩
-  case case4 ss sid' order s0 hl s' hp ih =>
+  case case4 ss env sid' order s0 hl s' hp ih =>
     intro hord h
     have hnd := List.nodup_cons.mp hord
     obtain ⟨h1, s, h2, h3⟩ := ih hnd.2 h
     have hne : sid ≠ sid' := fun e => hnd.1 (e ▸ h1)
     rw [lookup_remove_ne _ _ _ hne] at h2
+    have hle : leftover env sid' (restOf s0 (env sid')) sid = env sid := by simp [leftover, hne]
+    rw [hle] at h3
     exact ⟨List.mem_cons_of_mem _ h1, s, h2, h3⟩
-  case case5 ss sid' order s0 hl s' hp ih =>
+  case case5 ss env sid' order s0 hl s' hp ih =>
     intro hord h
     have hnd := List.nodup_cons.mp hord
     obtain ⟨h1, s, h2, h3⟩ := ih hnd.2 h
     have hne : sid ≠ sid' := fun e => hnd.1 (e ▸ h1)
     rw [lookup_setS_ne _ _ _ _ hne] at h2
+    have hle : leftover env sid' (restOf s0 (env sid')) sid = env sid := by simp [leftover, hne]
+    rw [hle] at h3
     exact ⟨List.mem_cons_of_mem _ h1, s, h2, h3⟩
 
 /-- The forwarded message comes from a polled, existing substream and is what that substream's own
@@ -363,22 +373,82 @@ theorem gone_is_silent (ss : Streams) (env : Nat → Env) (order : List Nat) (si
   fun_induction selectPoll ss env order
   case case1 => intro _ h; cases h
   case case2 ih => exact ih
-  case case3 ss sid' order s0 hl s' m' hp =>
+  case case3 ss env sid' order s0 hl s' m' hp =>
     intro hgone h
     simp only [Option.some.injEq, Prod.mk.injEq] at h
     rw [h.1, hgone] at hl
     cases hl
-  case case4 ss sid' order s0 hl s' hp ih =>
+  case case4 ss env sid' order s0 hl s' hp ih =>
     intro hgone
     apply ih
     by_cases he : sid = sid'
     · subst he; exact lookup_remove_self _ _
     · rw [lookup_remove_ne _ _ _ he]; exact hgone
-  case case5 ss sid' order s0 hl s' hp ih =>
+  case case5 ss env sid' order s0 hl s' hp ih =>
     intro hgone
     apply ih
     by_cases he : sid = sid'
     · subst he; rw [lookup_setS_self, hgone]; rfl
     · rw [lookup_setS_ne _ _ _ _ he]; exact hgone
+
+/-! ### A substream polled several times in one call (it woke itself) -/
+
+/-- a poll consumes answers from the front: what it leaves are suffixes of what it was given -/
+theorem pollNext_suffix (fuel : Nat) (s : S) (reads : List ReadAns) (procs : List ProcAns) :
+    (pollNext fuel s reads procs).2.2.1 <:+ reads ∧ (pollNext fuel s reads procs).2.2.2 <:+ procs := by
+  fun_induction pollNext fuel s reads procs
+  all_goals first
+    | exact ⟨List.suffix_refl _, List.suffix_refl _⟩
+    | exact ⟨List.suffix_refl _, List.suffix_cons _ _⟩
+    | exact ⟨List.suffix_cons _ _, List.suffix_refl _⟩
+    | (rename_i ih; exact ⟨ih.1, ih.2.trans (List.suffix_cons _ _)⟩)
+    | (rename_i ih; exact ⟨ih.1.trans (List.suffix_cons _ _), ih.2⟩)
+
+theorem restOf_sub (s : S) (e : Env) :
+    (∀ a, a ∈ (restOf s e).reads → a ∈ e.reads) ∧ (∀ a, a ∈ (restOf s e).procs → a ∈ e.procs) := by
+  have h := pollNext_suffix (e.reads.length + e.procs.length + 1) s e.reads e.procs
+  exact ⟨fun a ha => h.1.subset ha, fun a ha => h.2.subset ha⟩
+
+/-- C16 at the connection level without the assumption that each substream is polled once: however
+often `SelectAll` presents the substreams in one call (a substream whose processing future wakes
+itself is presented again), a substream disappears only because one of *its own* answers was a
+decoding error, the end of the stream or a message with a fatal error. -/
+theorem dropped_only_by_own_fault_any (ss : Streams) (env : Nat → Env) (order : List Nat) (sid : Nat) :
+    ∀ s, ss.lookup sid = some s → (selectPoll ss env order).1.lookup sid = none →
+    ReadAns.err ∈ (env sid).reads ∨ ReadAns.eof ∈ (env sid).reads ∨ ProcAns.fatal ∈ (env sid).procs := by
+  fun_induction selectPoll ss env order
+  case case1 => intro s hs hg; rw [hs] at hg; cases hg
+  case case2 ih => exact ih
+  case case3 ss env sid' order s0 hl s' m hp =>
+    intro s hs hg
+    by_cases he : sid = sid'
+    · subst he; rw [lookup_setS_self, hs] at hg; cases hg
+    · rw [lookup_setS_ne _ _ _ _ he, hs] at hg; cases hg
+  case case4 ss env sid' order s0 hl s' hp ih =>
+    intro s hs hg
+    by_cases he : sid = sid'
+    · subst he
+      rw [hl] at hs; cases hs
+      exact ended_reason s0 _ _ (by rw [hp])
+    · have hle : leftover env sid' (restOf s0 (env sid')) sid = env sid := by simp [leftover, he]
+      have := ih s (by rw [lookup_remove_ne _ _ _ he]; exact hs) hg
+      rw [hle] at this
+      exact this
+  case case5 ss env sid' order s0 hl s' hp ih =>
+    intro s hs hg
+    by_cases he : sid = sid'
+    · subst he
+      have hle : leftover env sid (restOf s0 (env sid)) sid = restOf s0 (env sid) := by simp [leftover]
+      have := ih s' (by rw [lookup_setS_self, hl]; rfl) hg
+      rw [hle] at this
+      obtain ⟨h1, h2⟩ := restOf_sub s0 (env sid)
+      rcases this with h | h | h
+      · exact Or.inl (h1 _ h)
+      · exact Or.inr (Or.inl (h1 _ h))
+      · exact Or.inr (Or.inr (h2 _ h))
+    · have hle : leftover env sid' (restOf s0 (env sid')) sid = env sid := by simp [leftover, he]
+      have := ih s (by rw [lookup_setS_ne _ _ _ _ he]; exact hs) hg
+      rw [hle] at this
+      exact this
 
 end Beetswap.Proofs.Inbound
